@@ -1529,6 +1529,8 @@ func (l *lexer) scanCmdSubst(r rune) bool {
 			heredoc:  heredoc{c: make(chan struct{}, 1)},
 			line:     l.line,
 			col:      l.col,
+			pos:      l.pos,
+			aliases:  l.aliases, // the substitution may begin inside an alias value
 		}
 		ll.mark(off)
 		ll.last.Store(ll.pos)
